@@ -81,6 +81,9 @@ func c14Run(c *Ctx) {
 	if c.Idx%16 == 3 {
 		c14SharedSource(c)
 	}
+	if c.Idx%8 == 6 {
+		c14OverlappingBacking(c)
+	}
 	nEx := c14Exhaustive()
 	exCases := (nEx + c14PairsPerCase - 1) / c14PairsPerCase
 	for k := 0; k < c14PairsPerCase; k++ {
@@ -305,6 +308,85 @@ func c14SharedSource(c *Ctx) {
 	}
 	if ok, what := fb.Equal(mon.Fp(tb)); !ok {
 		c.Violation("shared-source:source-modified", "the shared second source %v changed: %s", sb, what)
+	}
+}
+
+// c14OverlappingBacking: two tensor objects laid over one buffer (the same elements under
+// two shapes; a row of the first operand as the second). What the helpers return depends
+// on the shapes and the elements the operands hold - not on where those elements live.
+func c14OverlappingBacking(c *Ctx) {
+	r := c.R
+	sa := r.Shape(1, 3, 4, 48)
+	var sb []int
+	na := ref.NumElems(sa)
+	off := 0
+	switch r.Intn(3) {
+	case 0: // the same elements under another shape
+		sb = [][]int{{na}, {na, 1}, {1, na}, append([]int{1}, sa...)}[r.Intn(4)]
+	case 1: // the trailing axes of the first operand, starting somewhere inside it
+		sb = append([]int{}, sa[r.Intn(len(sa)):]...)
+		if nb := ref.NumElems(sb); na > nb {
+			off = nb * r.Intn(na/nb)
+		}
+	default: // a compatible (or not) shape over the beginning of the buffer
+		sb = compatibleWith(r, sa)
+		if ref.NumElems(sb) > na || ref.NumElems(sb) == 0 {
+			sb = []int{sa[len(sa)-1]}
+		}
+	}
+	nb := ref.NumElems(sb)
+	if off+nb > na || na == 0 || nb == 0 {
+		return
+	}
+	data := make([]float32, na)
+	a, b := ref.New(ref.F32, sa...), ref.New(ref.F32, sb...)
+	for i := range data {
+		data[i] = float32(i*3 + 1)
+		a.Bits[i] = ref.EncF(ref.F32, float64(data[i]))
+	}
+	for i := range b.Bits {
+		b.Bits[i] = ref.EncF(ref.F32, float64(data[off+i]))
+	}
+	c.SetCase("broadcast of two tensors over one buffer: %v and %v (the second starts at element %d of the first)", sa, sb, off)
+	c.Nontrivial(fmt.Sprintf("overlap|%v|%v|%d", sa, sb, off))
+	c.Count("pairs-over-one-buffer", 1)
+	want, werr := ref.BroadcastShape(sa, sb)
+	for _, which := range []string{"multidir", "unidir"} {
+		ta := tensor.New(tensor.WithShape(sa...), tensor.WithBacking(data[:na:na]))
+		tb := tensor.New(tensor.WithShape(sb...), tensor.WithBacking(data[off:off+nb:off+nb]))
+		o := mon.Capture(nil, func() ([]tensor.Tensor, error) {
+			var x, y tensor.Tensor
+			var err error
+			if which == "multidir" {
+				x, y, err = ops.MultidirectionalBroadcast(ta, tb)
+			} else {
+				x, y, err = ops.UnidirectionalBroadcast(ta, tb)
+			}
+			if err != nil {
+				return nil, err
+			}
+			return []tensor.Tensor{x, y}, nil
+		})
+		c.Eval(1)
+		exp := Expect{Kind: MustError, Why: "shapes do not broadcast", Mode: CmpBits}
+		switch {
+		case which == "multidir" && werr == nil:
+			exp = Expect{Kind: MustEqual, Mode: CmpBits, Want: Exact(ref.BroadcastTo(a, want), ref.BroadcastTo(b, want))}
+		case which == "unidir" && ref.UniBroadcastable(sa, sb):
+			exp = Expect{Kind: MustEqual, Mode: CmpBits, Want: Exact(a, ref.BroadcastTo(b, sa))}
+		}
+		if v := Judge(exp, o); !v.OK {
+			c.Violation(which+":"+v.Kind, "operands over one buffer, %v and %v (offset %d): %s", sa, sb, off, trunc(v.Detail, 400))
+		}
+		for i := range data {
+			if data[i] != float32(i*3+1) {
+				c.Violation(which+":source-modified", "operands over one buffer, %v and %v: element %d of the buffer changed", sa, sb, i)
+				break
+			}
+		}
+		if !ref.ShapeEq([]int(ta.Shape()), sa) || !ref.ShapeEq([]int(tb.Shape()), sb) {
+			c.Violation(which+":source-modified", "operands over one buffer: shapes afterwards %v and %v", ta.Shape(), tb.Shape())
+		}
 	}
 }
 
